@@ -423,7 +423,11 @@ def make_array(spec):
         a = r.standard_normal(shape) * spec.get("scale", 1.0)
     elif kind == "mask":
         r = np.random.default_rng(spec["seed"])
-        return r.random(shape) < spec.get("p", 0.6)
+        m = r.random(shape) < spec.get("p", 0.6)
+        if spec.get("special") == "single" and m.size:
+            m[...] = False
+            m.reshape(-1)[int(r.integers(m.size))] = True  # exactly one valid cell
+        return m
     elif kind == "const":
         a = np.full(shape, spec["value"], dtype="f8")
     else:
